@@ -1214,6 +1214,15 @@ func genEvmScenario(r *hx.Rng, i int) *Scenario {
 	}
 	mk := func(x TxS) {
 		x.Hash = randHash(r)
+		for dup := true; dup; {
+			dup = false
+			for _, y := range sc.Txs {
+				if y.Hash == x.Hash {
+					dup = true
+					x.Hash = hex.EncodeToString(r.Bytes(32))
+				}
+			}
+		}
 		x.Req = nextReq()
 		sc.Txs = append(sc.Txs, x)
 	}
@@ -1236,7 +1245,9 @@ func genEvmScenario(r *hx.Rng, i int) *Scenario {
 	// probe: which addresses did the block create / which beneficiaries exist
 	applyFlags(sc, sc.Height-1, false)
 	root, t := buildParent(sc)
-	for _, rc := range execOnce(sc, root, t).receipts {
+	var probe []*types.Receipt
+	hx.Guard(func() string { probe = execOnce(sc, root, t).receipts; return "" })
+	for _, rc := range probe {
 		if rc.ContractAddress != (common.Address{}) {
 			interest = append(interest, a20(rc.ContractAddress))
 			evmStats["created-addresses"]++
@@ -1259,7 +1270,9 @@ func genEvmScenario(r *hx.Rng, i int) *Scenario {
 		evmStats[fmt.Sprintf("tx type=%d", x.Type)]++
 	}
 	root, t = buildParent(sc)
-	for _, rc := range execOnce(sc, root, t).receipts {
+	probe = nil
+	hx.Guard(func() string { probe = execOnce(sc, root, t).receipts; return "" })
+	for _, rc := range probe {
 		evmStats[fmt.Sprintf("receipt status=%d", rc.Status)]++
 		if rc.GasUsed > 0 {
 			evmStats["receipts with gas"]++
@@ -1515,12 +1528,12 @@ func nfold(sc *Scenario, n int) map[string]int {
 			if root2 != root {
 				res["PARENT-ROOT-DIFFERS "+root2.Hex()]++
 			}
-			fp := execOnce(sc, root2, t2).fingerprint()
+			fp := hx.Guard(func() string { return execOnce(sc, root2, t2).fingerprint() })
 			res[fp]++
 			mark(i, n, fp)
 			continue
 		}
-		fp := execOnce(sc, root, t).fingerprint()
+		fp := hx.Guard(func() string { return execOnce(sc, root, t).fingerprint() })
 		res[fp]++
 		mark(i, n, fp)
 	}
@@ -1836,6 +1849,7 @@ func main() {
 		if err := json.Unmarshal(b, &sc); err != nil {
 			panic(err)
 		}
+		poisonRng = r.Fork() // the replay, too, poisons the process half-way through
 		res := nfold(&sc, hx.ArgInt(a, "n", 64))
 		for k, v := range res {
 			fmt.Printf("%dx %s\n", v, k)
